@@ -22,7 +22,15 @@ pub fn check(r: &RunResult, rep: &mut Report) {
 			.rate_limits
 			.iter()
 			.filter_map(|n| cfg.rate_limits.iter().find(|r| &r.name == n))
-			.filter_map(|r| parse_period(&r.period).map(|p| (r.number, p as u128 * 1_000_000_000, format!("{}/{}", r.number, r.period))))
+			.filter_map(|r| {
+				parse_period(&r.period).map(|p| {
+					(
+						r.number,
+						p as u128 * 1_000_000_000,
+						format!("{}/{}", r.number, r.period),
+					)
+				})
+			})
 			.collect();
 		if limits.is_empty() {
 			continue;
@@ -36,7 +44,12 @@ pub fn check(r: &RunResult, rep: &mut Report) {
 		for e in w.trace.iter() {
 			match &e.ev {
 				Ev::Boot { .. } => boots.push(vec![]),
-				Ev::NetSend { ca, method, url, .. } if *ca == ep.ca => boots.last_mut().unwrap().push((e.t, format!("{} {}", method, url))),
+				Ev::NetSend {
+					ca, method, url, ..
+				} if *ca == ep.ca => boots
+					.last_mut()
+					.unwrap()
+					.push((e.t, format!("{} {}", method, url))),
 				_ => {}
 			}
 		}
@@ -59,7 +72,10 @@ pub fn check(r: &RunResult, rep: &mut Report) {
 						rep.probe("c09.window_exactly_full", 1);
 					}
 					if count > *n {
-						let kinds: Vec<&str> = times[lo..=hi].iter().map(|x| x.1.split(' ').next().unwrap_or("")).collect();
+						let kinds: Vec<&str> = times[lo..=hi]
+							.iter()
+							.map(|x| x.1.split(' ').next().unwrap_or(""))
+							.collect();
 						let has_get = kinds.iter().any(|k| *k == "GET");
 						rep.add(Violation::new("C09", "rate_limit_exceeded", if has_get { "window_with_get" } else { "posts_only" }, "", format!("endpoint {} limit {}: {} requests within the window ending at {} ns ({:?})", ep.name, label, count, t, times[lo..=hi].iter().map(|x| x.1.rsplit('/').next().unwrap_or("")).collect::<Vec<_>>())));
 						break;
@@ -69,17 +85,39 @@ pub fn check(r: &RunResult, rep: &mut Report) {
 		}
 	}
 	// limiter actually slept?
-	let slept = w.trace.iter().filter(|e| matches!(&e.ev, Ev::TimerSleep { ns } if *ns >= 100_000_000 && *ns <= 3_600_000_000_000)).count();
+	let slept = w
+		.trace
+		.iter()
+		.filter(
+			|e| matches!(&e.ev, Ev::TimerSleep { ns } if *ns >= 100_000_000 && *ns <= 3_600_000_000_000),
+		)
+		.count();
 	rep.probe("c09.limiter_sleeps", slept as u64);
 	// requests are not withheld for ever when the limits permit them: every certificate is issued
 	// within the run's budget (the plans are sized for it), unless a fault plan says otherwise
-	if w.plan.faults.iter().all(|f| f.count < 1_000_000) && r.outcomes.iter().all(|o| !o.contains("EventCap")) {
+	if w.plan.faults.iter().all(|f| f.count < 1_000_000)
+		&& r.outcomes.iter().all(|o| !o.contains("EventCap"))
+	{
 		let atts = common::attempts(w);
 		for c in cfg.certificates.iter() {
 			let id = toml_emit::cert_id(c);
 			if !atts.iter().any(|a| a.cert == id && a.ok == Some(true)) {
 				let began = atts.iter().any(|a| a.cert == id);
-				rep.add(Violation::new("C09", "requests_withheld", if began { "attempt_never_completed" } else { "never_started" }, "", format!("{} not issued within {} virtual s", id, w.mono / 1_000_000_000)));
+				rep.add(Violation::new(
+					"C09",
+					"requests_withheld",
+					if began {
+						"attempt_never_completed"
+					} else {
+						"never_started"
+					},
+					"",
+					format!(
+						"{} not issued within {} virtual s",
+						id,
+						w.mono / 1_000_000_000
+					),
+				));
 			}
 		}
 	}
